@@ -120,6 +120,10 @@ def normalize_op(o):
         return ("enqueue", o[1], o[2])
     if o[0] == "reset":
         return ("reset",)
+    if o[0] == "on":
+        return ("on", o[1], normalize_op(o[2]))
+    if o[0] in ("copy", "assign", "move", "saveload"):
+        return (o[0], o[1], o[2])
     return (o[0], list(o[1]), plan(o[2]))
 
 class Stats:
@@ -147,7 +151,7 @@ def run_cases(prop, spec, cases, stats, log):
             jobs.append((n, md2, c, opss))
     def work(j):
         n, md, c, opss = j
-        exe, dt, err = corr.build_binary(md, c)
+        exe, dt, err = corr.build_binary(md, c, extra_flags=tuple(spec.get("extra_flags", ())))
         if exe is None:
             return (j, "BUILD", err, dt, [])
         outs = []
@@ -157,6 +161,7 @@ def run_cases(prop, spec, cases, stats, log):
             if bad_ids:
                 outs.append(("IDS", [], bad_ids[0], None))
         for ops in opss:
+            ops = msmgen.adapt_ops(ops, c)
             try:
                 r = corr.compare(md, c, ops, exe)
             except Exception as e:
@@ -167,6 +172,22 @@ def run_cases(prop, spec, cases, stats, log):
     with ThreadPoolExecutor(int(os.environ.get("VERIF_JOBS", "14"))) as ex:
         results = list(ex.map(work, jobs))
     mismatches, violations = [], []
+    cross = {}
+    for (n, md, c, opss), st, err, dt, outs in results:
+        if spec.get("cross_cfg") and st == "RUN":
+            for idx, (kind, ops, info, r) in enumerate(outs):
+                if kind in ("OK", "DIFF") and r and r.get("impl"):
+                    cross.setdefault((n, idx), []).append((c, md, ops, [spec["cross_cfg"](b) for b in r["impl"]]))
+    for (n, idx), lst in cross.items():
+        c0, md0, ops0, p0 = lst[0]
+        for c1, md1, ops1, p1 in lst[1:]:
+            stats.dist[("configuration pairs compared",)] += 1
+            if p1 != p0:
+                k = next((i for i in range(max(len(p0), len(p1))) if i >= len(p0) or i >= len(p1) or p0[i] != p1[i]), 0)
+                violations.append({"machine": n, "cfg": c1, "md": md1, "ops": ops1[:k + 1],
+                                   "why": "observable behaviour differs between %s and %s at operation %d: %s vs %s"
+                                          % (c0, c1, k, p0[k] if k < len(p0) else None, p1[k] if k < len(p1) else None)})
+                break
     for (n, md, c, opss), st, err, dt, outs in results:
         stats.build_s += dt
         if st == "BUILD":
@@ -252,6 +273,19 @@ def run_check(prop, spec, tier, replay=None):
         if prop not in kf["properties"] or not kf.get("replay"):
             continue
         md, cfg, ops = load_replay(os.path.join(VERIF, kf["replay"]))
+        if kf.get("expect") == "cross-differs":
+            raw = json.load(open(os.path.join(VERIF, kf["replay"])))
+            projs, okmodel = [], True
+            for cx in raw["cross"]:
+                rx = corr.compare(md, cx, ops)
+                okmodel = okmodel and (rx.get("bad") or rx["ok"])
+                projs.append([spec["cross_cfg"](b) for b in rx.get("impl", [])] if spec.get("cross_cfg") else rx.get("impl"))
+            stats.traces += len(raw["cross"])
+            if projs[0] != projs[1]:
+                known_lines.append("KNOWN-FINDING: property=%s %s (%s)" % (prop, kf["what"], kf["id"]))
+            if not okmodel:
+                mismatches.append({"machine": kf["id"], "cfg": "/".join(raw["cross"]), "kind": "trace", "detail": "model and implementation disagree on the pinned replay", "md": md, "ops": ops})
+            continue
         r = corr.compare(md, cfg, ops)
         if kf["kind"] == "known":
             # the defect is still in the tree: show it on the implementation's own trace
